@@ -423,3 +423,16 @@ def in_sympy_piecewise_eval(e: BaseException) -> bool:
             n += 1
         tb = tb.tb_next
     return n >= 10
+
+
+def raised_inside_sympy_piecewise(e: BaseException) -> bool:
+    """True when the exception was raised by sympy code while a sympy Piecewise was being constructed."""
+    tb = e.__traceback__
+    through, last = False, ""
+    while tb is not None:
+        fn = tb.tb_frame.f_code.co_filename
+        if fn.endswith("sympy/functions/elementary/piecewise.py"):
+            through = True
+        last = fn
+        tb = tb.tb_next
+    return through and "/sympy/" in last
